@@ -274,7 +274,7 @@ def run_sim(tape, out):
     spec = sp.gen_inference_spec(tape, disc_kinds=('disc', 'dist'), ties=False)
     pil = sr.pilot(elfi, spec)
     wl = c04.gen_workload(tape, spec, pil)
-    sched = sr.gen_schedule(tape, allow_native=False)
+    sched = sr.gen_schedule(tape)      # native included: it executes in-process, by reference
     sp.REC.reset(None)
     run_ = sr.SamplerRun(tape, out, spec, wl, sched, quiet=True)
     requested = install_seed_monitor(out, run_, wl['seed'])
